@@ -44,8 +44,9 @@ P = {
         "finest unit, maximality of the month/year part.",
    note=SAN + "subsets the documentation calls impossible are excluded. " + TB, ref="3 C06"),
  "C07": dict(cat="exploration", tech="reference-model monitor (step-over-weekdays oracle) + inversion law + ASan/UBSan",
-   text="dadd +-Nb in 6 calendars from every weekday incl. weekend starts, ddiff %db inversion and interval counts, and the "
-        "complete YYYY-MM-DDb -> date map.",
+   text="dadd +-Nb in 9 representations (ymd, ymcw, yd, ywd, bizda, ldn, mdn, jdn, epoch) from every weekday incl. weekend "
+        "starts, ddiff %db inversion and interval counts, and the complete YYYY-MM-DDb -> date map, also through ymcw/%jb/ldn "
+        "output and back from the civil date (four spellings) through %db.",
    note=SAN + TB, ref="3 C07"),
  "C11": dict(cat="exploration", tech="reference-model monitor (epoch-second arithmetic) + ASan/UBSan",
    text="dadd +-N s/m/h in ymd/ywd/ymcw/epoch representations across day, month, year boundaries up to 2^31-1 s; ddiff %S; "
@@ -58,7 +59,7 @@ P = {
         "--from-zone and dzone --next/--prev on a sample. Exhaustive over the transitions of the files visited.",
    note=SAN + "instants before the first transition are outside the property; no POSIX footer. " + TB, ref="3 C12"),
  "C13": dict(cat="exploration", tech="differential history monitor (N-value run vs N single-value runs; handle-with-history vs fresh handle) + probes + ASan/UBSan",
-   text="29 tool/option sets x 12 histories (permutations, junk prefixes, >255/>512 lines, duplicates, reversal, arguments) "
+   text="36 tool/option sets x 12 histories (permutations, junk prefixes, >255/>512 lines, duplicates, reversal, arguments) "
         "compared byte-for-byte with single-value runs; zone handles under 6 history shapes against fresh-handle answers and "
         "the zone-file oracle; several zones in one run against one zone per run; dadd REF with durations as stdin lines; "
         "mixed CRLF/LF line ends; the tool histories repeated on the 'pat' build (autos pre-filled with a pattern).",
@@ -94,14 +95,15 @@ P.update({
    text="Hostile formats, texts and durations (truncated/doubled directives, 255/256/257-byte boundaries, huge numbers, "
         "binary bytes, every special-format name, near-miss names) through every parser/formatter entry of the library "
         "(dutdrv P/F/R/A/C/U/L/B/V requests, small and exact caller buffers) and through all 10 tools' option surfaces; "
-        "every process must end with a normal exit status inside its CPU budget and without a sanitizer/probe report; a "
+        "well-formed compound dgrep expressions, literal text ending within a few bytes of the printers' buffers, TZMAP_DIR "
+        "values around PATH_MAX; every process must end with a normal exit status inside its CPU budget and without a sanitizer/probe report; a "
         "sample of the tool invocations and driver batches runs on the uninstrumented build under valgrind memcheck.",
    note=SAN + "a slow-but-terminating request is re-run with a larger budget before it is called a hang. " + TB, ref="3 C10"),
  "C15": dict(cat="exploration", tech="reference-model monitor (arithmetic-progression oracle) over complete dseq outputs + bounded-progress watchdog + ASan/UBSan",
    text="dseq FIRST [INC] LAST for dates in ymd/ywd/ymcw/yd, times and date-times; INC in d/w/mo/y/b/h/m/s, compound (1h30m, "
-        "1d12h), >= 24h, zero, wrong direction and inapplicable units; 8 skip sets; --compute-from-last; guessed increments. "
+        "1d12h), >= 24h, zero, wrong direction and inapplicable units; 8 skip sets; --alt-inc; --compute-from-last; guessed increments. "
         "The whole output is compared line by line with {FIRST + k*INC}; an output beyond the CPU/size cap is 'endless'.",
-   note=SAN + "time bounds with FIRST == LAST, compound month increments and one-argument forms are not judged. " + TB, ref="3 C15"),
+   note=SAN + "time bounds with FIRST == LAST may give one element or a full circle; compound month increments and one-argument forms are not judged. " + TB, ref="3 C15"),
  "C16": dict(cat="exploration", tech="reference-model monitor (nearest-candidate oracle on ordinals/seconds) + oracle-free idempotence and strictness monitors over dround outputs + ASan/UBSan",
    text="dround [-n] with weekday, day-of-month, month, quarter, ISO-week, hour/minute/second value targets and /N co-classes "
         "(h, m, s, 1d, 1b, mo, q, y), both directions, one and two specs, on ymd/ywd/yd/ymcw dates, date-times, times and epoch seconds, printed "
@@ -119,10 +121,11 @@ P.update({
         "ends/dates at 4096 boundaries; lines of 1000..70000 bytes; 16383..40000 lines; 17 MiB; one line of 3..15 MiB; CRLF, "
         "mixed, no final line feed): the output must equal the model byte for byte, and the same stream cut into other read() "
         "results (1..4095 bytes, random, hazard cuts, a real pipe with pauses) must give the same bytes and status, and a "
-        "stream without final line feed the output of the same stream with it (tails cut inside a date).",
+        "stream without final line feed the output of the same stream with it (tails cut inside a date); a read() that fails "
+        "after K bytes (injected) must give the output of a K-byte stream.",
    note=SAN + "probe H4 (src/prchunk.c): window offsets ordered, bytes out + held == bytes read on every fill; lines beyond the 16 MiB window are outside the judged domain. " + TB, ref="3 C18"),
  "C20": dict(cat="exploration", tech="differential monitor across injected configurations (environment + clock injected at gettimeofday()/time() by the shim) + name-table oracle for locale pairs + ASan/UBSan",
-   text="35 invocation templates over all tools (18 fully specified, 17 underspecified with --base) each run under the baseline "
+   text="38 invocation templates over all tools (18 fully specified, 20 underspecified with --base) each run under the baseline "
         "and under random TZ (15 values), LANG/LC_ALL/LC_TIME/LANGUAGE (12 values) and clock (20 instants + random + real) "
         "settings: stdout and exit status must be identical, the responsible setting is isolated on a difference; positive "
         "control that the injected clock is seen; --from-locale A / --locale B pairs (quick: 500 random pairs, thorough: all 226 x 274 "
